@@ -85,6 +85,7 @@ def _case(cfg, rng, radius=None):
 
 def gen_cases(ctx):
     rng = random.Random(ctx.seed)
+    ctx.exhaustive = False      # thorough: every configuration, but oblique angles / Gaussian radii are seeded
     if not ctx.quick:
         for cfg in configs():
             yield _case(cfg, rng)
